@@ -67,8 +67,23 @@ def decode(pol, env, td_in, tap=False):
     td = env.reset(td_in.clone())
     with torch.inference_mode():
         if tap:
-            with PolicyTap(pol) as rec:
-                out = pol(td, env, phase="test", return_actions=True, **DECODE_KW)
+            gl = getattr(pol.decoder, "_get_logprobs", None)  # MDAM: own decode loop over several decoder paths
+            extra = []
+            if gl is not None:
+                def wrapped(*a, **kw):
+                    out_ = gl(*a, **kw)
+                    lp = out_[0]
+                    extra.append(dict(logits=lp.detach().reshape(lp.shape[0], -1).clone(), mask=None, done=None))
+                    return out_
+
+                pol.decoder._get_logprobs = wrapped
+            try:
+                with PolicyTap(pol) as rec:
+                    out = pol(td, env, phase="test", return_actions=True, **DECODE_KW)
+            finally:
+                if gl is not None:
+                    pol.decoder._get_logprobs = gl
+            rec.steps += extra
             return out, rec
         return pol(td, env, phase="test", return_actions=True, **DECODE_KW), None
 
